@@ -102,7 +102,7 @@ theorem sync_run {s : State} (h : Agree s) (op : Op) (hadm : op.admissible s = t
   | allocSubnet key subnet a choice pl => exact syncUpTo_of_sync (sync_allocateInSubnet h.sync key subnet a choice pl hne) _
   | allocWithKey old new subnet a choice pl => exact syncUpTo_of_sync (sync_allocateInSubnetWithKey h.sync old new subnet a choice pl hne) _
   | allocRanges key subnet ranges a choice pl =>
-    exact syncUpTo_of_sync (sync_allocateInSubnetsAndRanges h key subnet ranges a choice pl hok hne) _
+    exact syncUpTo_of_sync (sync_allocateInSubnetsAndRanges h key subnet ranges a choice pl hne) _
   | reserve old new a order pl => exact syncUpTo_of_sync (sync_reserveLoop _ _ _ _ _ _ _ _ _ h.sync hne) _
   | updateAttr key ip a pl => exact syncUpTo_of_sync (sync_updateAttr h.sync _ _ _ _ hne) _
   | release key ip pl => exact syncUpTo_of_sync (sync_release h.sync _ _ _ hne) _
@@ -117,7 +117,7 @@ theorem sync_run {s : State} (h : Agree s) (op : Op) (hadm : op.admissible s = t
       by_cases hj : j = ip
       · subst hj
         right; right
-        exact storeEvents_appear hst (Tbl.get_set_self _ _ _) rfl
+        exact ⟨_, storeEvents_appear hst (Tbl.get_set_self _ _ _) rfl, rfl⟩
       · have hne' : ip ≠ j := fun e => hj e.symm
         rcases h.sync j hc with h1 | h1
         · exact Or.inl h1
@@ -134,7 +134,7 @@ theorem sync_run {s : State} (h : Agree s) (op : Op) (hadm : op.admissible s = t
         by_cases hj : j = ip
         · subst hj
           right; right
-          exact storeEvents_vanish hst (Tbl.get_erase_self _ _) hr
+          exact ⟨_, storeEvents_vanish hst (Tbl.get_erase_self _ _) hr, rfl⟩
         · have hne' : ip ≠ j := fun e => hj e.symm
           rcases h.sync j hc with h1 | h1
           · exact Or.inl h1
@@ -169,11 +169,6 @@ theorem agree_init' : Agree init := by
   refine ⟨memOK_init, ?_⟩
   intro ip hc
   simp [init, configured] at hc
-
-theorem agree_reach {s : State} (h : Reach s) : Agree s := by
-  induction h with
-  | init => exact agree_init'
-  | step op _ hadm hok ih => exact agree_step ih op hadm hok
 
 theorem reachAny_of_reach {s : State} (h : Reach s) : ReachAny s := by
   induction h with
